@@ -70,6 +70,10 @@ def run(tier):
         cfg = dict(trees.SITE_CONFIG)
         cfg["pygopherd"] = {"abstract_entries": ae, "abstract_headers": ah}
         specs.append({"tree": trees.rich_tree(rng, hostile=True, n_hostile=10), "config": cfg, "_ae": ae})
+    # one more world where the advertised port is not 70 (entries naming <our host>:70 are then remote)
+    cfg7 = dict(trees.SITE_CONFIG)
+    cfg7["pygopherd"] = {"abstract_entries": "always", "abstract_headers": "on"}
+    specs.append({"tree": trees.rich_tree(rng, hostile=True, n_hostile=4), "config": cfg7, "_ae": "always", "server_port": 7070})
     all_pages = pgsite.crawl_worlds(specs)
     ndirs = ndocs = 0
     for wi, pages in enumerate(all_pages):
@@ -85,7 +89,8 @@ def run(tier):
             if is_dir:
                 ndirs += 1
                 try:
-                    refview = pgsite.view_page("gopher", refout)
+                    wport = specs[wi].get("server_port", 70)
+                    refview = pgsite.view_page("gopher", refout, wport)
                 except V.Malformed as e:
                     continue  # C03/C05 territory
                 for proto, p in per.items():
@@ -93,7 +98,7 @@ def run(tier):
                         continue
                     chk.count((wi, sel, proto), nontrivial=len(refview) > 0)
                     try:
-                        view = pgsite.view_page(proto, p["out"].encode("latin-1"))
+                        view = pgsite.view_page(proto, p["out"].encode("latin-1"), wport)
                     except V.Malformed as e:
                         found = True
                         chk.violation({"what": "directory page not readable in this protocol: %s" % e, "protocol": proto,
